@@ -97,6 +97,45 @@ def mask_varcfg(p):
     return bytes(p)
 
 
+def mask_pjh(p):
+    """ri_whfast.p_jh is realloc'ed scratch: WHFast writes m and the nine coordinates only; r, last_collision,
+    c, hash, ap, sim of its entries are whatever the heap held (they differ between processes)"""
+    p = bytearray(p)
+    for i in range(0, len(p) - PSIZE + 1, PSIZE):
+        p[i + 80:i + 128] = bytes(48)
+    return bytes(p)
+
+
+def py_compare(rebound, a, ref, out, tmp):
+    """child: snapshot-wise comparison of two archives through the Python loader and the re-parser"""
+    import warnings
+    warnings.filterwarnings("ignore")
+    res = dict(error=None)
+    try:
+        sa, sr = rebound.Simulationarchive(a, process_warnings=False), rebound.Simulationarchive(ref, process_warnings=False)
+        res["n"] = [int(sa.nblobs), int(sr.nblobs)]
+        res["t"] = [[hex64(sa.t[i]) for i in range(sa.nblobs)], [hex64(sr.t[i]) for i in range(sr.nblobs)]]
+        res["diff"] = []
+        for k in range(min(sa.nblobs, sr.nblobs)):
+            cs = []
+            for arch in (sa, sr):
+                s = arch[k]
+                p = os.path.join(tmp, "cmp.bin")
+                if os.path.exists(p):
+                    os.remove(p)
+                s.save_to_file(p)
+                d = canon(parse_stream(open(p, "rb").read())[1])
+                d.pop(87, None)
+                if PJH in d:
+                    d[PJH] = mask_pjh(d[PJH])
+                cs.append(d)
+            res["diff"].append(diff_canon(cs[0], cs[1]))
+    except Exception as e:
+        res["error"] = repr(e)[:200]
+    with open(out, "w") as f:
+        json.dump(res, f)
+
+
 def canon(recs, mask_wall=True):
     """id -> payload; pointer-valued bytes masked; absent == empty"""
     d = {}
@@ -285,7 +324,7 @@ def hex64(x):
     return "%016x" % struct.unpack("<Q", struct.pack("<d", x))[0]
 
 
-def run_history(rebound, hist, wd, load_back=True):
+def run_history(rebound, hist, wd, load_back=True, keep_copies=False):
     """executes the history on the real code.  Writes wd/arch.bin, wd/s<k>.bin (serialisation of the live
     state at append k), wd/l<k>.bin (serialisation of snapshot k as loaded by the Python class), wd/meta.json"""
     import ctypes, warnings
@@ -315,6 +354,9 @@ def run_history(rebound, hist, wd, load_back=True):
 
     def manual_snap():
         sim.save_to_file(fn)
+        if keep_copies:
+            import shutil
+            shutil.copy(fn, os.path.join(wd, "a%d.bin" % len(meta["appends"])))
         capture(sim, "manual")
 
     def hb(simp):
